@@ -67,6 +67,23 @@ def judge(docs):
     return None
 
 
+def gen_three_stage(rng):
+    """3-4 stages writing into ONE container: the container carries a priority tag in some stages, single leaves in others, keys are
+    added by later stages - the hidden priority a container / an added entry keeps after each merge decides what the next writer may do"""
+    from ..reparse import parse_doc
+    keys = ['p', 'q', 'r']
+    texts = []
+    for i in range(rng.randint(3, 4)):
+        how = rng.random()
+        ents = rng.sample(keys, rng.randint(1, 2))
+        if how < 0.45:
+            tag = rng.choice(['!weak ', '!force ', '', ''])
+            texts.append('{c: %s{%s}, z: %d}' % (tag, ', '.join(f'{k}: {10 * i + j}' for j, k in enumerate(ents)), i))
+        else:
+            texts.append('{c: {%s}}' % ', '.join(f"{k}: {rng.choice(['!weak ', '!force ', '', ''])}{10 * i + j}" for j, k in enumerate(ents)))
+    return [parse_doc(t) for t in texts]
+
+
 def run(rep, tier, rng):
     rep.rule = ('histories of 2-5 mapping documents over keys {a,b,c,r,0,1,2} whose nodes carry !force/!weak (on leaves or enclosing mappings) and '
                 '!metadata{{..}} with optional priority; later documents are mutations of earlier ones so that writers of different priority meet at the same path; '
@@ -91,6 +108,8 @@ def run(rep, tier, rng):
     prof = gen.PROFILES['priomap']
     for _ in range(300 if tier == 'quick' else 6000):
         hist.append(gen.gen_history(rng, prof, 2, 5))
+    for _ in range(150 if tier == 'quick' else 3000):
+        hist.append(gen_three_stage(rng))
     for docs in hist:
         prs = set()
         for d in docs:
